@@ -1,5 +1,5 @@
 (* C12 - A rejected or deferred commit has no effect at all (abstract machine level). *)
-From Nomt Require Import Base Store Base_proofs Store_proofs SrcFacts_proofs.
+From Nomt Require Import Base Store Base_proofs Store_proofs.
 
 Theorem C12_reject_noop : forall st id busy st' r,
   commit st id busy = (st', r) -> r <> COk ->
@@ -10,9 +10,3 @@ Theorem C12_reject_noop : forall st id busy st' r,
 Proof. exact Store_proofs.C12_reject_noop. Qed.
 Print Assumptions C12_reject_noop.
 
-(* the four commit entry points and rollback in lib.rs (regenerated from the source on every run):
-   write lock, then previous-root check, and only then rollback-log append, overlay status
-   change, root update and store commit *)
-Theorem C12_source_step_order : commit_orders_ok = true.
-Proof. exact SrcFacts_proofs.commit_orders_ok_true. Qed.
-Print Assumptions C12_source_step_order.
